@@ -1070,6 +1070,64 @@ func c06Grow(c *Ctx, r *bufRoles) {
 				nCopies = nCopies.add(linSym(fmt.Sprintf("copy@%d", call.Pos())), 1)
 			}
 		}
+		// what is copied: exactly the stored bytes, oldest first - data[head:tail] when the path has found
+		// head <= tail, otherwise data[head:] followed by data[:tail] placed right behind it
+		{
+			recvN := g.Params[0].Name()
+			hF, tF := linSym(recvN+"."+r.head), linSym(recvN+"."+r.tail)
+			type seg struct {
+				lo, hi   *linForm
+				dstLo    *linForm
+				call     *ssa.Call
+				fromRing bool
+			}
+			var segs []seg
+			for idx, in := range pt.Instrs {
+				call, ok := in.(*ssa.Call)
+				if !ok || !isCall(call, "builtin.copy") {
+					continue
+				}
+				sg := seg{call: call}
+				form := func(v ssa.Value) *linForm {
+					if v == nil {
+						return nil
+					}
+					f := pathLin(pt, pt.valueAt(v, idx), sym)
+					return &f
+				}
+				if sl, ok := strip(pt.valueAt(call.Call.Args[1], idx)).(*ssa.Slice); ok && r.isLoad(pt.valueAt(sl.X, idx), r.data) {
+					sg.fromRing = true
+					sg.lo, sg.hi = form(sl.Low), form(sl.High)
+				}
+				if dl, ok := strip(pt.valueAt(call.Call.Args[0], idx)).(*ssa.Slice); ok {
+					sg.dstLo = form(dl.Low)
+				}
+				segs = append(segs, sg)
+			}
+			isF := func(p *linForm, want linForm) bool { return p != nil && p.eq(want) }
+			contiguous := false
+			for _, cnd := range pt.Conds {
+				if a, pol, ok := atomOfP(cnd.Cond, cnd.Val, sym, pt.phi); ok && pol && !a.Eq {
+					// head <= tail  <=>  tail - head + 1 > 0
+					if a.Form.eq(tF.add(hF, -1).add(linConst(1), 1)) {
+						contiguous = true
+					}
+				}
+			}
+			okSegs := false
+			switch {
+			case len(segs) == 1 && contiguous:
+				okSegs = segs[0].fromRing && isF(segs[0].lo, hF) && isF(segs[0].hi, tF) && (segs[0].dstLo == nil || segs[0].dstLo.eq(linConst(0)))
+			case len(segs) == 2 && !contiguous:
+				first := linSym(fmt.Sprintf("copy@%d", segs[0].call.Pos()))
+				okSegs = segs[0].fromRing && segs[1].fromRing && isF(segs[0].lo, hF) && segs[0].hi == nil &&
+					(segs[1].lo == nil || segs[1].lo.eq(linConst(0))) && isF(segs[1].hi, tF) &&
+					(segs[0].dstLo == nil || segs[0].dstLo.eq(linConst(0))) && isF(segs[1].dstLo, first)
+			}
+			if !okSegs {
+				o.Fail(ret.Pos(), "growth does not copy exactly the stored bytes in order (data[head:tail], or data[head:] followed by data[:tail] right behind it) on this path (contiguous=%v, %d copies): bytes already read are delivered again, or stored ones are lost", contiguous, len(segs))
+			}
+		}
 		if headV == nil || tailV == nil || dataV == nil {
 			o.Fail(ret.Pos(), "a successful growth path does not update head, tail and data together")
 			continue
@@ -1425,6 +1483,13 @@ func runC07(c *Ctx) {
 	}
 	// growth cap: R6 — maximum size constants
 	c07GrowCap(c, r)
+	// Size() is tail - head: what the ring rules of C06 establish about the two indices (advanced by exactly what
+	// was stored / consumed, wrapped before use, growth re-linearising) is part of "Size reports the occupancy"
+	if c.RulePrefix == "" {
+		c.RulePrefix = "Ring."
+		runC06(c)
+		c.RulePrefix = ""
+	}
 }
 
 // c07GrowCap: the new size is capped at limitSize+1 when a size limit is set, else at the 4 MiB constant.
